@@ -65,6 +65,11 @@ class Gen:
                 # nested dynamic arrays get different lengths, so sibling items/fields have different sizes
                 bump = self.n() % 2
                 dims = [d if sd is not None else d + bump for d, sd in zip(dims, t[2])]
+            if len(dims) > 1 and any(sd == 0 for sd in t[2]) and t[1][0] == "scalar":
+                # a STATIC axis of length 0 in a multi-dimensional array of numbers: only an ndarray can say (0, n)
+                import numpy as np
+
+                return np.zeros([d if sd is not None else max(d, 1) for d, sd in zip(dims, t[2])], dtype=tg.build(t[1])._dtype)
             if len(dims) > 1 and 0 in dims:
                 # a nested list can only express an empty LAST axis ([[],[]] has shape (2,0), [] is
                 # ambiguous): other dynamic axes get length 2; if the last axis is static, no axis is empty
